@@ -14,6 +14,7 @@ type thread struct {
 	resume   chan bool // true = run, false = abort
 	finished bool
 	waitsFor *value // mutex this thread is blocked on
+	wantsRead bool
 	panicVal interface{}
 }
 
@@ -25,6 +26,7 @@ type sched struct {
 	switches    int
 	maxSwitches int
 	owner       map[*value]int // mutex -> owning thread
+	readers     map[*value]int // RWMutex -> number of read locks held
 }
 
 type abortThread struct{}
@@ -44,7 +46,7 @@ func (s *sched) lock(mu *value) {
 	s.yield()
 	t := s.current()
 	for {
-		if _, held := s.owner[mu]; !held {
+		if _, held := s.owner[mu]; !held && s.readers[mu] == 0 {
 			s.owner[mu] = t.id
 			t.waitsFor = nil
 			return
@@ -55,6 +57,26 @@ func (s *sched) lock(mu *value) {
 		t.waitsFor = mu
 		s.yield()
 	}
+}
+
+// rlock / runlock: the read side of a RWMutex
+func (s *sched) rlock(mu *value) {
+	s.yield()
+	t := s.current()
+	for {
+		if _, held := s.owner[mu]; !held {
+			s.readers[mu]++
+			t.waitsFor = nil
+			return
+		}
+		t.waitsFor = mu
+		s.yield()
+	}
+}
+
+func (s *sched) runlock(mu *value) {
+	s.readers[mu]--
+	s.yield()
 }
 
 func (s *sched) unlock(mu *value) {
@@ -72,6 +94,9 @@ func (s *sched) runnable() []int {
 			if _, held := s.owner[t.waitsFor]; held {
 				continue
 			}
+			if s.readers[t.waitsFor] > 0 && !t.wantsRead {
+				continue
+			}
 		}
 		r = append(r, t.id)
 	}
@@ -85,7 +110,7 @@ func ndPar(fr *frame, args []value) value {
 	if v, ok := i.params["preemptions"]; ok {
 		maxSw = v
 	}
-	s := &sched{i: i, back: make(chan int), maxSwitches: maxSw, owner: map[*value]int{}}
+	s := &sched{i: i, back: make(chan int), maxSwitches: maxSw, owner: map[*value]int{}, readers: map[*value]int{}}
 	i.sched = s
 	defer func() { i.sched = nil }()
 	for k := 0; k < 2; k++ {
